@@ -294,3 +294,18 @@ def concrete_total_entries(g, root, s):
             raise nomsem.Unsupported("symbolic count on concrete input")
         tot[name] = tot.get(name, 0) + c
     return tot
+
+
+def find_nodes_in(node, pred):
+    """nodes below `node` (not descending into other productions) satisfying pred"""
+    out = []
+
+    def walk(n):
+        if pred(n):
+            out.append(n)
+        if n.kind == "ref":
+            return
+        for kid in n.kids:
+            walk(kid)
+    walk(node)
+    return out
